@@ -105,6 +105,7 @@ def store_shard(serializer: str, kind: str, seed: int, examples: int, known: lis
         ser_len = len(ser.serialize(val))
         original = copy.deepcopy(val)
         rep.holder["case"] = {"serializer": serializer, "store": kind, "min_size_to_cache": minsize, "lru": lru, "disabled": disable, "disable_arg": disable_arg, "value": repr(val)[:200]}
+        ser0 = ser.serialize(val)  # the content the reference is created from
         ref = cds.serialize(val, disable_cache=disable_arg)
         is_ref = cds.is_reference(ref)
         expect_ref = (not disable) and (not disable_arg) and ser_len >= minsize
@@ -136,7 +137,7 @@ def store_shard(serializer: str, kind: str, seed: int, examples: int, known: lis
                 rep.fail(f"store:{kind}:resolve-mutated-resend", f"a fresh reader resolves {back_m!r:.100} for the re-sent mutated value {mutated_copy!r:.100}")
         again = copy.deepcopy(original)
         ref2 = cds.serialize(again, disable_cache=disable_arg)
-        if ser.serialize(again) == ser.serialize(original):
+        if ser.serialize(again) == ser0:
             rep.check(ref2 == ref, f"store:{kind}:content-addressing", "equal content gave a different reference / inline string")
         # eviction pressure, then resolve again
         for o in others:
